@@ -350,6 +350,35 @@ def run(tier, seed):
   for i in bad[:3]:
     broke = ((broke or '') + ' correspondence TrialConverter.to_proto vs model on %s;' % (tobjs[i],))
 
+  # ---- a StudyConfig that came from the wire is edited and sent again: what is sent is what the object says NOW
+  for i in range(N // 10):
+    sc0 = svz.StudyConfig()
+    sc0.search_space.root.add_float_param('x', 0.0, 1.0)
+    sc0.metric_information.append(vz.MetricInformation(name='m', goal=vz.ObjectiveMetricGoal.MAXIMIZE))
+    for _ in range(r.randrange(1, 4)):
+      sc0.metadata.abs_ns(vz.Namespace(r.choice([(), ('a',), ('a', 'b')])))[r.choice(['k', 'k2'])] = r.choice(['v', 'w', ''])
+    sc1 = svz.StudyConfig.from_proto(sc0.to_proto())
+    edit = r.choice(['clear_all', 'delete_one', 'change_one', 'add_one'])
+    if edit == 'clear_all':
+      for ns in list(sc1.metadata.namespaces()):
+        for k_ in list(sc1.metadata.abs_ns(ns)):
+          del sc1.metadata.abs_ns(ns)[k_]
+    elif edit == 'delete_one':
+      ns = r.choice(list(sc1.metadata.namespaces()))
+      del sc1.metadata.abs_ns(ns)[r.choice(list(sc1.metadata.abs_ns(ns)))]
+    elif edit == 'change_one':
+      ns = r.choice(list(sc1.metadata.namespaces()))
+      sc1.metadata.abs_ns(ns)[r.choice(list(sc1.metadata.abs_ns(ns)))] = 'changed'
+    else:
+      sc1.metadata.abs_ns(vz.Namespace(('new',)))['k'] = 'added'
+    sc2 = svz.StudyConfig.from_proto(sc1.to_proto())
+    items = lambda c_: sorted((str(ns), k_, str(v_)) for ns in c_.metadata.namespaces() for k_, v_ in c_.metadata.abs_ns(ns).items())
+    rep.case({'edited_config': edit, 'metadata_now': items(sc1)}, True)
+    rep.count('edited_config_' + edit)
+    if items(sc2) != items(sc1):
+      viol('a StudyConfig read from the wire, edited (%s) and converted again does not carry its current metadata' % edit,
+           {'before_edit': items(sc0), 'after_edit': items(sc1), 'after_round_trip': items(sc2)})
+
   D = pc.MetadataDeltaConverter
   for i in range(N // 3):
     d = vz.MetadataDelta()
